@@ -368,7 +368,7 @@ func generate(suite string, seed uint64, i int) *Case {
 		edges, names := genGraph(r, g)
 		cfg := genCfg(r, cp{p1: []int{0, 1}, p2: []int{0, 1}, p4: []int{0, 1, 2, 3, 4}, bk: allBK, p5: []int{0, 1, 2, 4},
 			virt: 1, mon: true, trace: true}, names)
-		return &Case{ID: id, Op: "layout", Cfg: cfg, Edges: edges, Arg: map[string]any{"repeat": 2.0}}
+		return &Case{ID: id, Op: "layout", Cfg: cfg, Edges: edges, Arg: map[string]any{"repeat": 2.0, "montoggle": 1.0}}
 	case "e2e-rand": // Greedy with random node choice
 		edges, names := genGraph(r, g)
 		cfg := genCfg(r, cp{p1: []int{2}, p2: []int{0, 1}, p4: []int{0, 1, 2, 3, 4}, bk: allBK, p5: []int{0, 1, 2, 4},
